@@ -130,7 +130,7 @@ pub fn one_case(kind: &str, si: &gen::SchemaInfo, input: &J, out: &mut Out) {
 
 fn merge_sdl() -> String { format!("{}\ninput In {{ a: Int  b: Int }}\ninterface Pet {{ name: String  nick: String  owner: Human }}\ntype Dog implements Pet {{ name: String  nick: String  barks: Boolean  owner: Human  n: Int  l: [Int]  m: Int! }}\ntype Cat implements Pet {{ name: String  nick: String  meows: Boolean  owner: Human  n: String  l: [Int!]  m: Int }}\nunion CatOrDog = Cat | Dog\ntype Human {{ name: String  nick: String  f(x: Int, y: [Int], o: In): Int  list: [Int]  nn: Int!  self: Human  pet: Pet  dog: Dog  cd: CatOrDog }}\ntype Query {{ human: Human  pet: Pet  dog: Dog  cat: Cat  cd: CatOrDog }}\n", schemas::PRELUDE) }
 
-fn frags_sdl() -> String { format!("{}\nscalar Custom\nenum E {{ X }}\ninput In {{ x: Int }}\ninterface I {{ a: Int  t: T }}\ninterface J implements I {{ a: Int  t: T }}\ninterface K {{ a: Int }}\ninterface L {{ a: Int }}\ntype T implements I & J & K {{ a: Int  t: T  i: I  j: J  u: U  k: K }}\ntype V {{ a: Int }}\ntype W implements I {{ a: Int  t: T }}\ntype X implements K & L {{ a: Int }}\nunion U = T | V\nunion U2 = V | W\ntype Query {{ a: Int  t: T  i: I  j: J  u: U  u2: U2  v: V  w: W  k: K  l: L  x: X }}\n", schemas::PRELUDE) }
+fn frags_sdl() -> String { format!("{}\nscalar Custom\nenum E {{ X }}\ninput In {{ x: Int }}\ninterface I {{ a: Int  t: T }}\ninterface J implements I {{ a: Int  t: T }}\ninterface K {{ a: Int }}\ninterface L {{ a: Int }}\ninterface M implements I {{ a: Int  t: T }}\ntype T implements I & J & K {{ a: Int  t: T  i: I  j: J  u: U  k: K }}\ntype V {{ a: Int }}\ntype W implements I {{ a: Int  t: T }}\ntype X implements K & L {{ a: Int }}\nunion U = T | V\nunion U2 = V | W\ntype Query {{ a: Int  t: T  i: I  j: J  u: U  u2: U2  v: V  w: W  k: K  l: L  x: X  m: M }}\n", schemas::PRELUDE) }
 
 pub fn generate(kind: &str, thorough: bool, seed: u64, corpus: &str, out: &mut Out) {
     let mut rng = Rng::new(seed);
@@ -199,6 +199,24 @@ pub fn generate(kind: &str, thorough: bool, seed: u64, corpus: &str, out: &mut O
                 let plans = crate::valcases::random_plans(&mut rng, 2);
                 crate::valcases::validate_case_plans(&si, &t, &tmp, &plans, out);
             } } } }
+            // a schema that declares no directive at all (not even @skip/@include): what one rule does not know, no other rule may learn from it
+            let si = gen::SchemaInfo::new("nodirs", "scalar Int\nscalar Boolean\ntype Query { a: Int  b(x: Int!): Int  q: Query }\n");
+            out.schema(&si);
+            let uses = ["@skip(if: true)", "@skip(if: true) @skip(if: false)", "@include", "@include(if: true, unless: 1)", "@skip @include(if: 1)", "@deprecated", "@specifiedBy(url: 1) @specifiedBy",
+                        "@mine @mine", "@skip(if: $v)"];
+            let plans13: Vec<Vec<&'static str>> = vec![
+                vec!["KnownDirectives", "UniqueDirectivesPerLocation"], vec!["UniqueDirectivesPerLocation", "KnownDirectives"],
+                vec!["KnownDirectives", "ProvidedRequiredArguments"], vec!["ProvidedRequiredArguments", "KnownDirectives"],
+                vec!["KnownDirectives", "KnownArgumentNames", "ValuesOfCorrectType", "VariablesInAllowedPosition"],
+                vec!["VariablesInAllowedPosition", "ValuesOfCorrectType", "KnownArgumentNames", "KnownDirectives", "UniqueDirectivesPerLocation", "ProvidedRequiredArguments"],
+            ];
+            for u in uses.iter() {
+                for tpl in ["{ a {U} }", "query Q {U} { q { a } }", "{ q { ... {U} { a } ...F } } fragment F on Query {U} { b(x: 1) {U} }"] {
+                    let body = tpl.replace("{U}", u);
+                    let t = if body.contains("$v") { if body.starts_with("query Q") { body.replacen("query Q", "query Q($v: Boolean)", 1) } else { format!("query ($v: Boolean) {}", body) } } else { body };
+                    crate::valcases::validate_case_plans(&si, &t, &tmp, &plans13, out);
+                }
+            }
         }
         "purity" => {
             let tmp = tmpdir();
@@ -521,6 +539,14 @@ pub fn generate(kind: &str, thorough: bool, seed: u64, corpus: &str, out: &mut O
                 for j in 0..n { t.push_str(&format!(" fragment F{} on T {{ t {{ {} }} }}", j, if j + 1 < n { format!("...F{}", j + 1) } else { "a".to_string() })); }
                 crate::valcases::termination_case(&si, &t, &tmp, "chain", out);
             }
+            // a ladder of diamonds: k layers of two fragments, each spreading both fragments of the next layer (2^k spread paths, ~6k nodes,
+            // no cycle): the memo tables must keep the work polynomial
+            for k in (if thorough { vec![8usize, 12, 16, 20, 24, 28] } else { vec![8usize, 14, 20, 24] }) {
+                let mut t = String::from("{ t { ...L0a ...L0b } }");
+                for i in 0..k { t.push_str(&format!(" fragment L{}a on T {{ a ...L{}a ...L{}b }} fragment L{}b on T {{ b ...L{}a ...L{}b }}", i, i + 1, i + 1, i, i + 1, i + 1)); }
+                t.push_str(&format!(" fragment L{}a on T {{ a }} fragment L{}b on T {{ b }}", k, k));
+                crate::valcases::termination_case(&si, &t, &tmp, "diamond-ladder", out);
+            }
             // every way each rule can be violated, as enumerated for C04..C11 (one document in 12; thorough: in 3), all plans
             crate::valcases::FULL_TERMINATION.store(true, std::sync::atomic::Ordering::Relaxed);
             crate::valcases::FULL_MODE.store(if thorough { 3 } else { 12 }, std::sync::atomic::Ordering::Relaxed);
@@ -581,6 +607,14 @@ pub fn generate(kind: &str, thorough: bool, seed: u64, corpus: &str, out: &mut O
                 if thorough || (ia + ib) % 2 == 0 {
                     emit(format!("query ($v: Int) {{ human {{ a: self {{ ...F }} a: self {{ {} }} b: self {{ ...F }} b: self {{ {} }} }} }} fragment F on Human {{ {} }}", a, b, a), "shared-frag", group, out);
                     emit(format!("query ($v: Int) {{ human {{ a: self {{ {} }} a: self {{ ...F }} b: self {{ {} }} b: self {{ ...F }} }} }} fragment F on Human {{ {} }}", b, a, b), "shared-frag", group, out);
+                }
+                // a chain of fragments CA -> CB spread from two selection sets; only the later-visited one has a field that meets CB's
+                // (a memo keyed by fragment names alone would skip the second comparison)
+                if thorough || (ia + ib) % 2 == 1 {
+                    let frs = format!("fragment CA on Human {{ ...CB }} fragment CB on Human {{ {} }}", b);
+                    emit(format!("query ($v: Int) {{ human {{ first: self {{ ...CA }} second: self {{ {} ...CA }} }} }} {}", a, frs), "chain-two-sites", group, out);
+                    emit(format!("query Q1 {{ human {{ ...CA }} }} query Q2($v: Int) {{ human {{ {} ...CA }} }} {}", a, frs).replace("Q2($v: Int)", if a.contains("$v") || b.contains("$v") { "Q2($v: Int)" } else { "Q2" }).replace("query Q1 ", if b.contains("$v") { "query Q1($v: Int) " } else { "query Q1 " }), "chain-two-sites", group, out);
+                    emit(format!("query ($v: Int) {{ human {{ self {{ ...CA }} }} human {{ self {{ ...CB {} }} }} }} {}", a, frs), "chain-two-sites", group, out);
                 }
                 for (ip, t) in [format!("{{ human {{ {} }} human {{ {} }} }}", a, b), format!("{{ human {{ self {{ {} }} }} human {{ self {{ {} }} }} }}", a, b),
                           format!("{{ human {{ self {{ {} }} ...F }} }} fragment F on Human {{ self {{ {} }} }}", a, b),
@@ -711,8 +745,8 @@ pub fn generate(kind: &str, thorough: bool, seed: u64, corpus: &str, out: &mut O
                 }
             }
             // (B) type conditions of every kind at every kind of enclosing type
-            let parents = ["", "t", "i", "j", "u", "u2", "v", "w", "k", "l", "x", "nope"];
-            let conds = ["Query", "T", "V", "W", "X", "I", "J", "K", "L", "U", "U2", "E", "In", "Custom", "Int", "Unknown", "__Type", "__Schema", "__Foo", "__typename"];
+            let parents = ["", "t", "i", "j", "u", "u2", "v", "w", "k", "l", "x", "m", "nope"];   // m: an interface that implements I and has no implementing object
+            let conds = ["Query", "T", "V", "W", "X", "I", "J", "K", "L", "M", "U", "U2", "E", "In", "Custom", "Int", "Unknown", "__Type", "__Schema", "__Foo", "__typename"];
             for p in parents.iter() {
                 let wrap = |inner: &str| if p.is_empty() { format!("{{ {} }}", inner) } else { format!("{{ {} {{ {} }} }}", p, inner) };
                 crate::valcases::rules_case(&si, &wrap("... { __typename }"), &rules, &tmp, out);
@@ -720,7 +754,7 @@ pub fn generate(kind: &str, thorough: bool, seed: u64, corpus: &str, out: &mut O
                 for c in conds.iter() {
                     crate::valcases::rules_case(&si, &wrap(&format!("... on {} {{ __typename }}", c)), &rules, &tmp, out);
                     crate::valcases::rules_case(&si, &format!("{} fragment F on {} {{ __typename }}", wrap("...F"), c), &rules, &tmp, out);
-                    for c2 in ["T", "I", "K", "U", "V", "Unknown"] {
+                    for c2 in ["T", "I", "K", "U", "V", "M", "Unknown"] {
                         crate::valcases::rules_case(&si, &wrap(&format!("... on {} {{ ... on {} {{ __typename }} }}", c, c2)), &rules, &tmp, out);
                         crate::valcases::rules_case(&si, &format!("{} fragment F on {} {{ ...G }} fragment G on {} {{ __typename }}", wrap("...F"), c, c2), &rules, &tmp, out);
                     }
@@ -857,6 +891,35 @@ pub fn generate(kind: &str, thorough: bool, seed: u64, corpus: &str, out: &mut O
                 let doc = format!("query A{} {{ {}{} }}{} {} fragment G on W {{ g(l0: [$y]) }} fragment H on Query {{ plain(i: $z) }}", defs(d), uses(u), spreads(sp), op2, f);
                 crate::valcases::rules_case(&si, &doc, &rules, &tmp, out);
             } } } } }
+            // ---- several operations entering one fragment graph (cycles included) at different fragments: what an operation uses is
+            //      what is reachable from ITS spreads, whatever was computed for the operations before it
+            {
+                let mut c = 0usize;
+                for adj in 0..512u32 {
+                    for variant in 0..6usize {
+                        c += 1;
+                        if !thorough && (adj as usize + adj as usize / 6 + variant) % 3 != 0 { continue; }   // quick: two variants per graph, rotating
+                        let mut frs = String::new();
+                        for j in 0..3usize {
+                            let mut body = format!("plain(i: $v{})", j);
+                            for k in 0..3usize { if adj >> (3 * j + k) & 1 == 1 {
+                                body.push_str(&if (j + k + variant) % 2 == 0 { format!(" ...F{}", k) } else { format!(" w {{ w {{ ... on W {{ ...G{} }} }} }}", k) });
+                            } }
+                            frs.push_str(&format!(" fragment F{} on Query {{ {} }} fragment G{} on W {{ g(a0: $v{}) ... on W {{ w {{ ...H{} }} }} }} fragment H{} on W {{ g(a0: $v{}){} }}",
+                                j, body, j, j, j, j, j, (0..3usize).filter(|k| adj >> (3 * j + k) & 1 == 1 && (j + k + variant) % 2 == 1).map(|k| format!(" ...G{}", k)).collect::<String>()));
+                        }
+                        // variants 4, 5: each operation defines what its own entry fragment uses (A: everything), so an undefined
+                        // variable of B or C is one reached through the graph only - the document's only violation
+                        let all = "($v0: Int, $v1: Int, $v2: Int)";
+                        let (da, db, dc) = match variant { 0 | 1 => ("", "", ""), 2 | 3 => (all, all, all), _ => (all, "($v1: Int)", "($v2: Int)") };
+                        let ops = match variant % 2 {
+                            0 => format!("query A{} {{ ...F0 }} query B{} {{ ...F1 }} query C{} {{ ...F2 }}", da, db, dc),
+                            _ => format!("query C{} {{ ...F2 }} query A{} {{ {} }} query B{} {{ ...F1 }}", dc, da, if variant == 5 { "...F0" } else { "w { ...G0 }" }, db),
+                        };
+                        crate::valcases::rules_case(&si, &format!("{}{}", ops, frs), &rules, &tmp, out);
+                    }
+                }
+            }
             // ---- duplicate variable names
             for len in 1..=3usize { for code in 0..(1usize << len) { for second in 0..3usize {
                 let vs: Vec<String> = (0..len).map(|k| format!("${}: {}", if code >> k & 1 == 1 { "x" } else { "y" }, if k % 2 == 0 { "Int" } else { "String" })).collect();
